@@ -754,12 +754,16 @@ func stripFunc(args Tuple) (func(rune) bool, error) {
 	var (
 		pyval Object = None
 	)
-	err := ParseTuple(args, "|s", &pyval)
+	err := ParseTuple(args, "|O", &pyval)
 	if err != nil {
 		return nil, err
 	}
 	f := unicode.IsSpace
 	switch v := pyval.(type) {
+	case NoneType:
+		// strip(None) strips whitespace, like strip()
+	default:
+		return nil, ExceptionNewf(TypeError, "strip arg must be None or str")
 	case String:
 		chars := []rune(string(v))
 		f = func(s rune) bool {
